@@ -409,6 +409,18 @@ func run(c hx.Config) error {
 		return "total"
 	}
 	probeWith := func(stream, label string, z any, vs []val) {
+		if strings.Contains(label, "/zero") || strings.Contains(label, "/neg") || strings.Contains(label, "/big") {
+			// does the schema built from extreme arguments already fail on a benign value of its own payload type?
+			// then the ARGUMENT is the cause of every panic observed with it, not the particular input
+			for _, tv := range typedVals(z) {
+				if strings.HasPrefix(tv.name, "sample(") {
+					if strings.HasPrefix(observe(z, tv.v), "panic:") {
+						label += "[arg-broken]"
+					}
+					break
+				}
+			}
+		}
 		for _, v := range vs {
 			obs := observe(z, v.v)
 			o.Emit(fmt.Sprintf("c04 x %s ParseAny %s # %s %s.ParseAny(%s)", stream, strings.ReplaceAll(v.name, " ", "_"), stream, label, v.name), obs)
@@ -571,6 +583,7 @@ func run(c hx.Config) error {
 		o.Emit("c04 m "+cs.Body+" # "+s.Kind+" "+how+" "+cx.Repro(s, in), obs)
 		o.Count("m:" + s.Kind + ":" + obs)
 	}
+	r = hx.NewRng(c.Seed ^ 0xC04) // the m stream has its own generator: widening the x stream must not reshuffle it
 	for _, kind := range kinds {
 		for i := range perKind {
 			depth := 1 + i%4
